@@ -22,6 +22,7 @@ func selftest(seed uint64, seeds, par int) int {
 		fatal2("%v", err)
 	}
 	applyBuildLimits(b)
+	deepTier = os.Getenv("VERIF_SELFTEST_DEEP") != ""
 	corp, err := loadCorpus(filepath.Join(verifDir(), "corpus"))
 	if err != nil {
 		fatal2("corpus: %v", err)
